@@ -524,7 +524,9 @@ impl Ctx {
       let scale: u32 = std::env::var("VERIF_QUICK_SCALE").ok().and_then(|s| s.parse().ok()).unwrap_or(5);
       cases.saturating_mul(scale.max(1))
     } else {
-      cases
+      // thorough tier: twice the listed budget (VERIF_THOROUGH_SCALE overrides)
+      let scale: u32 = std::env::var("VERIF_THOROUGH_SCALE").ok().and_then(|s| s.parse().ok()).unwrap_or(2);
+      cases.saturating_mul(scale.max(1))
     };
     let shards = self.threads.max(1).min(cases.max(1) as usize);
     let per = cases / shards as u32;
